@@ -1,7 +1,7 @@
 (* C10 - n-best results are the k best derivations, best first.  Property theorems only. *)
 From Coq Require Import List ZArith Bool Arith Sorted.
 Import ListNotations.
-Require Import AStar AStarLoss AStarOpt AStarImpl AStarRefine AStarThms AStarReplay AStarCheck AStarProblem AStarExample.
+Require Import AStar AStarLoss AStarOpt AStarImpl AStarRefine AStarThms AStarReplay AStarDistinct AStarCheck AStarProblem AStarExample.
 Open Scope Z_scope.
 
 (* the goal cell of an accepted n-best run is in non-increasing score order *)
@@ -36,6 +36,34 @@ Proof.
              (lookup1 (p_un p)) (p_isroot p) (p_pen p) (p_max_step p) (p_nbest p) st g Hr Hg).
   - exact (goal_score Nat.eqb (p_n p) (p_tagf p) (p_depf p) (p_adm p) (p_besttag p) (p_bestdep p) (lookup2 (p_bin p))
              (lookup1 (p_un p)) (p_isroot p) (p_pen p) (p_max_step p) (p_nbest p) (p_dedup p) st g Hr Hg).
+Qed.
+
+(* the returned derivations are pairwise different *)
+Theorem C10_results_pairwise_different : forall p tr st,
+  p_dedup p = false -> p_accepts p tr = Some st -> NoDup (map (@jder nat) (jgoal st)).
+Proof.
+  intros p tr st Hd Hacc. destruct (p_accepts_reach p tr st Hacc) as [Hr _]. unfold p_reach in Hr. rewrite Hd in Hr.
+  exact (impl_goals_distinct Nat.eqb nat_eqb_eq (p_n p) (p_tagf p) (p_depf p) (p_adm p) (p_besttag p) (p_bestdep p) (lookup2 (p_bin p))
+           (lookup1 (p_un p)) (p_isroot p) (p_pen p) (p_max_step p) (p_nbest p) (p_adm_nodup p) st Hr).
+Qed.
+
+(* min(k, number of derivations): never more than k are returned; and when the search stopped with fewer than k parses
+   although the step budget was not exhausted, the agenda was empty and every derivation of the sentence was returned
+   (exactly once, by the theorem above) *)
+Theorem C10_at_most_k : forall p tr st, p_accepts p tr = Some st -> (length (jgoal st) <= p_nbest p)%nat.
+Proof. intros p tr st Hacc. destruct (p_accepts_reach p tr st Hacc) as [Hr _]. exact (jreach_goal_count _ _ _ _ _ _ _ _ _ _ _ _ _ _ st Hr). Qed.
+
+Theorem C10_fewer_than_k_means_all_returned : forall p tr st,
+  p_dedup p = false -> p_accepts p tr = Some st ->
+  (length (jgoal st) < p_nbest p)%nat -> (jsteps st < p_max_step p)%nat ->
+  forall d, p_complete p d -> In d (map (@jder nat) (jgoal st)).
+Proof.
+  intros p tr st Hd Hacc Hlt Hst. destruct (p_accepts_reach p tr st Hacc) as [Hr Hnr]. unfold p_reach in Hr. rewrite Hd in Hr.
+  assert (Hag : jagenda st = []).
+  { unfold p_running_b, jrunning_b in Hnr. apply Nat.ltb_lt in Hlt, Hst. rewrite Hlt, Hst in Hnr. simpl in Hnr.
+    destruct (jagenda st); [reflexivity | discriminate]. }
+  exact (impl_exhausted_means_all_returned Nat.eqb nat_eqb_eq (p_n p) (p_tagf p) (p_depf p) (p_adm p) (p_besttag p) (p_bestdep p) (lookup2 (p_bin p))
+           (lookup1 (p_un p)) (p_isroot p) (p_pen p) (p_max_step p) (p_nbest p) st Hr Hag).
 Qed.
 
 (* what is handed to the finalizer is the goal cell, stably sorted best first: a permutation of it *)
